@@ -541,6 +541,57 @@ fn sub_long_strings(input: &[u8], st: &mut Stats) -> R {
     check_script(&Script { buf, reqs }, st)
 }
 
+/// `text-strings`: the buffer is a run of well-formed literal strings (NUL-terminated, padded to a
+/// word) whose text comes from the characters text-handling code treats specially - byte order mark
+/// first, in the middle, alone; noncharacters; separators; the edges of the surrogate gap - with raw
+/// words between them; read back with string requests under and without limits. "Returns exactly the
+/// string found" quantifies over string contents as much as over lengths.
+fn sub_text_strings(input: &[u8], st: &mut Stats) -> R {
+    let mut cs = Cs::new(input);
+    let n = 1 + cs.below(4);
+    let mut buf: Vec<u8> = vec![];
+    let mut reqs: Vec<Req> = vec![];
+    for _ in 0..n {
+        if cs.below(4) == 0 {
+            buf.extend(cs.u32().to_le_bytes());
+            reqs.push(Req::Word);
+        }
+        let t = match cs.below(6) {
+            0 => crate::cs::AWKWARD_CHARS[cs.below(crate::cs::AWKWARD_CHARS.len())].to_string(),
+            1 => {
+                let a = crate::cs::AWKWARD_CHARS[cs.below(crate::cs::AWKWARD_CHARS.len())];
+                let k = cs.below(9);
+                format!("{}{}", a, cs.ascii_exact(k))
+            }
+            2 => {
+                let k = cs.below(9);
+                let b = cs.ascii_exact(k);
+                format!("{}{}", b, crate::cs::AWKWARD_CHARS[cs.below(crate::cs::AWKWARD_CHARS.len())])
+            }
+            _ => cs.text(12),
+        };
+        let words = t.len() / 4 + 1;
+        buf.extend(t.as_bytes());
+        buf.push(0);
+        while buf.len() % 4 != 0 {
+            buf.push(0);
+        }
+        match cs.below(6) {
+            0 => reqs.push(Req::SetLimit(words)),
+            1 => reqs.push(Req::SetLimit(words + 1 + cs.below(2))),
+            2 => reqs.push(Req::SetLimit(words.saturating_sub(1))),
+            3 => reqs.push(Req::ClearLimit),
+            _ => {}
+        }
+        reqs.push(Req::Str);
+        reqs.push(Req::Query);
+    }
+    reqs.push(Req::ClearLimit);
+    reqs.push(Req::Word);
+    st.count("text_string_scripts");
+    check_script(&Script { buf, reqs }, st)
+}
+
 /// Hand-minimised inputs kept as plain regression checks.
 fn sub_fixed(input: &[u8], st: &mut Stats) -> R {
     let k = idx(input);
@@ -563,6 +614,7 @@ pub const SUBS: &[Sub] = &[
     Sub { name: "scripts", f: sub_scripts },
     Sub { name: "wide-scripts", f: sub_wide },
     Sub { name: "long-strings", f: sub_long_strings },
+    Sub { name: "text-strings", f: sub_text_strings },
 ];
 
 pub fn run(ctx: &Ctx) {
@@ -571,6 +623,7 @@ pub fn run(ctx: &Ctx) {
     drive_random(ctx, &SUBS[1], ctx.n(200_000, 100_000_000), 300);
     drive_random(ctx, &SUBS[2], ctx.n(20_000, 10_000_000), 400);
     drive_random(ctx, &SUBS[3], ctx.n(60, 6_000), 64);
+    drive_random(ctx, &SUBS[4], ctx.n(30_000, 10_000_000), 200);
     if !ctx.quick() && !ctx.failed() {
         crate::fuzzing::drive_fuzz(ctx, "decoder", 1_000_000);
     }
